@@ -636,7 +636,7 @@ def correspond(ctx):
             nontrivial.add(rq)
     rnd = ctx.rng("findings")
     reps = ctx.pick(10, 100)
-    for n_long in list(range(0, 26)) * reps + [40, 100]:
+    for n_long in list(range(0, 26)) * reps + [40, 100, 251, 400, 1200]:      # "all rows" has no upper bound (seeded change C18-4: a cap at 250)
         files = gen_findings(rnd, n_long)
         inps, reqs, obs, f = run_findings_case(files)
         fails += f
